@@ -19,6 +19,7 @@ import (
 	"os"
 	"path/filepath"
 	"sort"
+	"strings"
 	"time"
 
 	"github.com/getlantern/zenodb/core"
@@ -168,6 +169,9 @@ func (Engine) Run(ctx *hk.RunCtx) error {
 		files, _ := filepath.Glob(filepath.Join(ctx.Corpus, "*.json"))
 		sort.Strings(files)
 		for i, f := range files {
+			if strings.Contains(filepath.Base(f), "dblarge") && ctx.Mode != "" && ctx.Mode != "db" {
+				continue // large end-to-end cases: once per check run (db mode), not once per mode
+			}
 			e.hit("corpus")
 			if err := e.replayFile(f, uint64(1<<40)+uint64(i)); err != nil {
 				return fmt.Errorf("corpus %s: %v", f, err)
@@ -183,6 +187,12 @@ func (Engine) Run(ctx *hk.RunCtx) error {
 	if mode == "" || mode == "core" {
 		for i := ctx.From; i < ctx.From+ctx.N; i++ {
 			r := hk.Derive(ctx.Seed, uint64(i))
+			if isLargeCore(i) {
+				if err := e.largeCoreCase(r, uint64(i)); err != nil {
+					return err
+				}
+				continue
+			}
 			if err := e.coreCase(r, uint64(i)); err != nil {
 				return err
 			}
@@ -196,8 +206,13 @@ func (Engine) Run(ctx *hk.RunCtx) error {
 		for i := from; i < from+n; i++ {
 			idx := uint64(1<<32) + uint64(i)
 			r := hk.Derive(ctx.Seed, idx)
-			c := genDBCase(r)
-			e.dbHits(c)
+			var c DBCase
+			if isLargeDB(i) {
+				c = genLargeDBCase(r, e)
+			} else {
+				c = genDBCase(r)
+				e.dbHits(c)
+			}
 			if err := e.dbCase(c, idx); err != nil {
 				return err
 			}
@@ -239,6 +254,7 @@ type Case struct {
 	Offset int               `json:"offset"`
 	Class  string            `json:"class,omitempty"`
 	DB     *DBCase           `json:"db,omitempty"`
+	Large  *LargeSpec        `json:"large,omitempty"` // kind "dblarge": compact form of a large db case
 	Extra  map[string]string `json:"extra,omitempty"`
 }
 
@@ -260,6 +276,12 @@ func (e *run) runCase(c Case, idx uint64) error {
 			return err
 		}
 		return e.queryCase(c.Keys, rows, c.Limit, c.Offset, c.Class, idx)
+	case "dblarge":
+		if c.Large == nil {
+			return fmt.Errorf("dblarge case without large")
+		}
+		e.hit("db:large")
+		return e.dbCase(c.Large.expand(), idx)
 	case "db":
 		if c.DB == nil {
 			return fmt.Errorf("db case without db")
@@ -357,7 +379,11 @@ func (e *run) queryCase(keys []Key, rows []Row, limit, offset int, class string,
 	if e.ctx.Model == nil {
 		return nil
 	}
-	if len(keys) > 0 {
+	big := len(rows) > modelSortMax
+	if big {
+		e.hit("large:model-sort-skipped(quadratic)")
+	}
+	if len(keys) > 0 && !big {
 		ms, err := e.modelRows(map[string]interface{}{"engine": "sort", "op": "sort", "keys": keys, "rows": rowsJSON(rows)})
 		if err != nil {
 			return err
@@ -373,6 +399,9 @@ func (e *run) queryCase(keys []Key, rows []Row, limit, offset int, class string,
 	}
 	if !(sameRowSeq(msl, out) || (len(keys) > 0 && sameStrings(projs(keys, msl), projs(keys, out)))) {
 		e.ctx.Res.Disagree(hk.Disagreement{Kind: "model-vs-impl", Case: cj, Impl: rowsJSON(out), Model: rowsJSON(msl), Detail: "limit/offset of the ordered result", Index: idx})
+	}
+	if big && len(keys) > 0 {
+		return nil
 	}
 	// the composition (addOrderLimitOffset with the model's own sort): same key projections
 	mq, err := e.modelRows(map[string]interface{}{"engine": "sort", "op": "query", "keys": keys, "rows": rowsJSON(rows), "limit": limit, "offset": offset})
@@ -415,7 +444,13 @@ func (e *run) checkResult(cj interface{}, keys []Key, unordered, ordered, out []
 	}
 	ties := false
 	for i := 0; i < len(ordered); i++ {
-		for j := i + 1; j < len(ordered); j++ {
+		// small results: all pairs; large ones: neighbours only (the specification order is
+		// transitive: Props/C09 lexLt_trans / lexLt_negTrans)
+		last := len(ordered)
+		if len(ordered) > pairwiseMax {
+			last = min(len(ordered), i+2)
+		}
+		for j := i + 1; j < last; j++ {
 			c, _ := specCmp(keys, ordered[j], ordered[i])
 			if c < 0 {
 				fail("ORDER BY result is not non-decreasing under the key list", rowsJSON(ordered), nil)
